@@ -1020,7 +1020,7 @@ class SymbolicI:
             for v in ctx.inputs.values():
                 if z3.is_real(v):
                     ctx.solver.add(z3.IsInt(v * scale))
-            ctx.solver.set("timeout", 3000)
+            ctx.solver.set("timeout", 1500)
             r = ctx.check()
             return ctx.get_model() if r == 'sat' else None
         except z3.Z3Exception:
@@ -1189,15 +1189,21 @@ def explore(body, case, max_paths=200000, timeout_ms=10000, budget_s=None, reset
             rec['paths'] += 1
             if len(rec['witnesses']) < want_witness:
                 try:
+                    m = None
                     ctx.solver.push()
                     for sc in ctx.side:
                         ctx.solver.add(sc)
+                    ctx.solver.push()
                     for v in ctx.inputs.values():
                         if z3.is_real(v):
                             ctx.solver.add(z3.IsInt(v * 1024))
-                    ctx.solver.set("timeout", 3000)
+                    ctx.solver.set("timeout", 1500)
                     if str(ctx.solver.check()) == 'sat':
                         m = ctx.get_model()
+                    ctx.solver.pop()
+                    if m is None and str(ctx.solver.check()) == 'sat':
+                        m = ctx.get_model()
+                    if m is not None:
                         obs = {}
                         for k, val in I.observed.items():
                             obs[k] = _eval_obs(m, val)
